@@ -1,6 +1,7 @@
 import Proofs.TraceFin
 import Proofs.SrcCompileLinesInc
 import Proofs.C07First
+import Proofs.SrcShiftSource
 /-!
 # Helper lemmas for C07 `run_error_located_at_token`
 
@@ -275,3 +276,14 @@ theorem run_error_pathSet (P : Prims) (O : OutPrims) (cfg : Cfg) (fs : FS) (fuel
         cases hse
       · cases h
       · cases h
+
+/-- whether a source has a tag named `include` does not depend on the start line -/
+theorem noIncludeTag_any_line (delims : List Bytes) (src : Bytes) (h : NoIncludeTag (scan delims src 0)) (l : Nat) :
+    NoIncludeTag (scan delims src l) := by
+  have hs := scan_shift delims src 0 l
+  rw [Nat.zero_add] at hs
+  rw [hs]
+  intro t ht
+  obtain ⟨t0, ht0, rfl⟩ := List.mem_map.mp ht
+  rw [relTokC_ty, relTokC_name]
+  exact h t0 ht0
